@@ -195,14 +195,22 @@ def run(ctx):
     gi = ctx.fn('bin', 'gambit::get_global_info', rule)
     if gi is not None:
         good = False
+        wrong = False
         for c in b.closures_of(gi):
             r = strip_refs(q.ret_expr(c))
             if r[0] == 'agg' and r[1] == 'tuple' and len(r[2]) == 2:
                 v = strip_refs(r[2][1])
-                if v[0] == 'cidx' and v[2] == 0 and not v[3] and strip_refs(r[2][0])[0] == 'field':
+                first = (v[0] == 'cidx' and v[2] == 0 and not v[3]) or (v[0] == 'field' and v[2] == '0')     # element 0 of the pair / first field of a two-field record
+                other = (v[0] == 'cidx' and v[2] != 0) or (v[0] == 'field' and str(v[2]).isdigit() and v[2] != '0')
+                if first and strip_refs(r[2][0])[0] == 'field':
                     good = True
                     ctx.touch(c)
-        ctx.verdict(good, rule, rule + ':player-one-payoff', 'the payoff kept per outcome is player one\'s (element 0 of the pair)', gi.where(0), 'found map closure returning (id, pair[0]): %s' % good,
+                elif other:
+                    wrong = True
+        if not good and not wrong:
+            ctx.anchor_lost(rule, 'get_global_info: the per-outcome payoff kept for the game', 'no map closure returning (id, component of the pair)')
+        else:
+          ctx.verdict(good, rule, rule + ':player-one-payoff', 'the payoff kept per outcome is player one\'s (element 0 of the pair)', gi.where(0), 'found map closure returning (id, pair[0]): %s' % good,
                     breaks='the game is solved with player two\'s payoffs')
     # player number mapping
     rule = 'C15.player-mapping'
@@ -278,6 +286,12 @@ def run(ctx):
                         # compares component .0 (the name) of both items — alone, or first in a tuple
                         txt = facts.show(r)
                         cmp_ok = (q.is_call(r, 'cmp') or q.is_call(r, 'partial_cmp') or q.is_call(r, 'unwrap')) and '.0' in txt
+                        if variant == 'Chance' and cmp_ok:
+                            # chance outcomes may share a name (names of chance moves are not part of the game): ties are
+                            # broken by the probability, so that two nodes of one chance infoset list equal distributions
+                            tie = all(q.find_sub(r, lambda s_, k_=k_: s_[0] == 'field' and s_[2] == '1' and q.find_sub(s_, lambda y_: y_[0] == 'param' and y_[1] == k_) is not None) is not None for k_ in ((2, 3) if cf.is_closure else (1, 2)))
+                            ctx.verdict(tie, rule, '%s:%s:tie-broken-by-probability' % (rule, what), 'equally named chance outcomes are ordered by probability', cf.where(0),
+                                        'comparator reads component .1 of both items: %s' % tie, breaks='a valid file whose chance infoset lists equally named outcomes in different orders is rejected (ProbabilitiesNotEqual)')
                 if hit is not None:
                     # what is compared are the decoded names (Strings, as in the JSON maps) — not the parser's escaped labels
                     for bj, t, se in sorts:
